@@ -48,3 +48,80 @@ def y1(prog):
     if len(conds) < 2:
         raise Broken("fewer start conditions than confirmed by hand (2)")
     return inst, findings
+
+
+def n1(prog):
+    """format directives are implemented as their documented %( ... %) expansions"""
+    inst, findings = [], []
+    doc = open(os.path.join(REPO, "doc/syntax.rst")).read()
+    rows = dict(re.findall(r"``(%[a-z])`` stands for ``%\((.*?)%\)``", doc))
+    if len(rows) < 5:
+        raise Broken("fewer documented format directives than confirmed by hand (5): %s" % sorted(rows))
+    yl = prog.func_opt("yylex")
+    if yl is None:
+        raise Broken("anchor yylex vanished")
+    # lexer.ll: map each <STRING>"%X" rule to its action's source line range
+    lines = open(lexer_path()).read().split("\n")
+    rule_at = {}
+    for i, ln in enumerate(lines, 1):
+        m = re.match(r'<STRING>"(%[a-z])"', ln)
+        if m:
+            rule_at[m.group(1)] = i
+    impl = {}
+    for c in calls(yl["body"]):
+        if c.get("f") == "tree::push_child" and c.get("l", "").startswith("lexer.ll:"):
+            line = int(c["l"].split(":")[1])
+            a = unwrap(c["a"][0])
+            if isinstance(a, dict) and a.get("k") == "call" and a.get("fn") == "parse_subquery":
+                from r_tables import strval
+                lit = strval(a["a"][0])
+                # which rule does this action belong to: the closest rule line above
+                owner = None
+                for d, rl in rule_at.items():
+                    if rl <= line and (owner is None or rl > rule_at[owner]):
+                        owner = d
+                nxt = min([rl for rl in rule_at.values() if rl > rule_at.get(owner, 0)] + [10 ** 9]) if owner else 0
+                if owner and line < nxt and lit is not None:
+                    impl[owner] = (lit, c["l"])
+    for d, body in sorted(rows.items()):
+        key = "N1:" + d
+        got = impl.get(d)
+        inst.append((key, {"documented": body.strip(), "implemented": got[0] if got else None}))
+        if got is None:
+            if d in rule_at:
+                raise Broken("the action of <STRING>\"%s\" is not `push_child (parse_subquery (literal))` (unmodelled shape)" % d)
+            findings.append({"key": key, "where": "libzwerg/lexer.ll", "msg": "documented directive %s has no scanner rule" % d, "detail": None})
+        elif got[0].split() != body.split():
+            findings.append({"key": key, "where": "libzwerg/" + got[1],
+                             "msg": "`%s` is documented as `%%(%s%%)` but implemented as `%%( %s %%)`" % (d, body, got[0]), "detail": None})
+    for d in rule_at:
+        if d not in rows:
+            findings.append({"key": "N1:" + d, "where": "libzwerg/lexer.ll:%d" % rule_at[d], "msg": "scanner implements directive %s which doc/syntax.rst does not define" % d, "detail": None})
+    return inst, findings
+
+
+def n2(prog):
+    """infix `A op B` is built as ?(let ~a~ := A; let ~b~ := B; ~a~ ~b~ op): same reserved names at bind and read"""
+    inst, findings = [], []
+    po = prog.func_opt("(anonymous namespace)::parse_op")
+    tm = prog.func_opt("(anonymous namespace)::parse_op_tmplet")
+    if po is None or tm is None:
+        raise Broken("anchors parse_op / parse_op_tmplet vanished")
+    from r_tables import strval
+    tmpl_names = [strval(c["a"][0]) for c in calls(po["body"]) if c.get("fn") == "parse_op_tmplet"]
+    words = [strval(c["a"][0]) for c in calls(po["body"]) if c.get("fn") == "parse_word" and strval(c["a"][0]) is not None]
+    opread = [c for c in calls(po["body"]) if c.get("fn") == "parse_word" and strval(c["a"][0]) is None]
+    wrapped = any(c.get("f") == "tree::create_assert" for c in calls(po["body"])) and \
+        any(c.get("f", "").startswith("tree::create_unary<") and "PRED_SUBX_ANY" in c.get("f", "") for c in calls(po["body"])) and \
+        any(c.get("f") == "tree::create_scope" for c in calls(po["body"]))
+    # template: SUBX_EVAL<1>(SCOPE x) then BIND name
+    one = any(c.get("f", "").startswith("tree::create_const<") and "SUBX_EVAL" in c["f"] for c in calls(tm["body"]))
+    binds = any(c.get("fn") == "tree_for_id_block" for c in calls(tm["body"]))
+    key = "N2:parse_op"
+    info = {"bound": tmpl_names, "read": words, "reads_operator": len(opread) == 1, "assert_subx_scope": wrapped, "tmplet": one and binds}
+    inst.append((key, info))
+    ok = len(tmpl_names) == 2 and tmpl_names == words and len(set(tmpl_names)) == 2 and len(opread) == 1 and wrapped and one and binds
+    if not ok:
+        findings.append({"key": key, "where": po["l"],
+                         "msg": "infix comparison is no longer built as ?(let a := A; let b := B; a b op) with matching reserved names (bound %s, read %s)" % (tmpl_names, words), "detail": info})
+    return inst, findings
